@@ -21,6 +21,42 @@ def build_gff_text(features):
     return "\n".join(lines) + "\n"
 
 
+def loc_text(x):
+    if x[0] == "seg":
+        return f"{x[3]}{x[1]}..{x[4]}{x[2]}"
+    if x[0] == "pt":
+        return str(x[1])
+    return ("join(" if x[0] == "join" else "complement(") + ",".join(loc_text(k) for k in x[1]) + ")"
+
+
+def build_gb_text(seqid, features):
+    L = 80
+    out = [f"LOCUS       {seqid:<16}{L:>11} bp    DNA     linear   BCT 01-JAN-2000", "DEFINITION  generated.", f"ACCESSION   {seqid}",
+           "FEATURES             Location/Qualifiers"]
+    for f in features:
+        loc = loc_text(f["loc"])
+        # long locations continue on the next lines at column 22, broken after a comma
+        parts, cur = [], ""
+        for piece in loc.replace(",", ",\0").split("\0"):
+            if cur and len(cur) + len(piece) > 58:
+                parts.append(cur)
+                cur = ""
+            cur += piece
+        parts.append(cur)
+        out.append(f"     {f['biotype']:<16}{parts[0]}")
+        out += [" " * 21 + p for p in parts[1:]]
+        if f.get("qualifier"):
+            out.append(" " * 21 + f"/{f['qualifier']}=\"{f['qname']}\"")
+        out.append(" " * 21 + "/note=\"n\"")
+    out.append("ORIGIN")
+    seq = "acgt" * (L // 4)
+    for i in range(0, L, 60):
+        chunk = seq[i:i + 60]
+        out.append(f"{i + 1:>9} " + " ".join(chunk[j:j + 10] for j in range(0, len(chunk), 10)))
+    out.append("//")
+    return "\n".join(out) + "\n"
+
+
 def add_user(db, r):
     kw = dict(seqid=r["seqid"], biotype=r["biotype"], name=r["name"], spans=[tuple(s) for s in r["spans"]],
               strand=r["strand"], attributes=r["attrs"])
@@ -29,11 +65,24 @@ def add_user(db, r):
     db.add_feature(**kw)
 
 
-def make_other(kind, raws, tmp):
-    from cogent3.core.annotation_db import BasicAnnotationDb
+def make_other(op, tmp, n):
+    """the db given to union()/update(): a BasicAnnotationDb, or one of the class of self loaded from text"""
+    from cogent3.core import annotation_db as adb
 
-    db = BasicAnnotationDb()
-    for r in raws:
+    ok = op.get("other_kind", "basic")
+    if ok == "gff":
+        p = os.path.join(tmp, f"o{n}.gff")
+        with open(p, "w") as f:
+            f.write(build_gff_text(op["other_feats"]))
+        db = adb.load_annotations(path=p)
+    elif ok == "gb":
+        p = os.path.join(tmp, f"o{n}.gb")
+        with open(p, "w") as f:
+            f.write(build_gb_text(op["other_seqid"], op["other_feats"]))
+        db = adb.load_annotations(path=p)
+    else:
+        db = adb.BasicAnnotationDb()
+    for r in op["other"]:
         add_user(db, r)
     return db
 
@@ -109,14 +158,19 @@ def run_case(case, tmp):
             with open(p, "w") as f:
                 f.write(build_gff_text(op["features"]))
             db = adb.load_annotations(path=p, db=db)
+        elif o == "gb":
+            p = os.path.join(tmp, f"f{n}.gb")
+            with open(p, "w") as f:
+                f.write(build_gb_text(op["seqid"], op["features"]))
+            db = adb.load_annotations(path=p, db=db)
         elif o == "add":
             if db is None:
-                db = adb.GffAnnotationDb()
+                db = adb.GenbankAnnotationDb() if kind == "gb" else adb.GffAnnotationDb()
             add_user(db, op["raw"])
         elif o == "union":
-            db = db.union(make_other(kind, op["other"], tmp))
+            db = db.union(make_other(op, tmp, n))
         elif o == "update":
-            db.update(make_other(kind, op["other"], tmp))
+            db.update(make_other(op, tmp, n))
         elif o == "subset":
             db = db.subset(**qkwargs(op["query"], for_subset=True))
         elif o == "copy":
@@ -138,7 +192,7 @@ def run_case(case, tmp):
         else:
             raise ValueError(o)
     if db is None:
-        db = adb.GffAnnotationDb()
+        db = adb.GenbankAnnotationDb() if kind == "gb" else adb.GffAnnotationDb()
     out = []
     for q in case["queries"]:
         kw = qkwargs(q)
@@ -160,6 +214,21 @@ def run_case(case, tmp):
             ckw["on_alignment"] = kw["on_alignment"]
         cnt = int(db.num_matches(**ckw))
         out.append([feats, recs, cnt])
+    if "cds" in case:
+        STAGE[0] = "count_distinct"
+        cdo = []
+        for cd in case["cds"]:
+            t = db.count_distinct(**{k: v for k, v in zip(("seqid", "biotype", "name"), cd)})
+            if t is None:
+                cdo.append(None)
+                continue
+            hdr = list(t.header)
+            rows = []
+            for row in t.to_list():
+                d = dict(zip(hdr, row))
+                rows.append([[[d[k]] if k in d else [] for k in ("seqid", "biotype", "name")], int(d["count"])])
+            cdo.append(sorted(rows, key=repr))
+        out.append(cdo)
     return out
 
 
